@@ -299,6 +299,8 @@ def _run_model(case, ctx):
     mp = gen.material_props(r) if r.random() < 0.4 else None
     Tst = T if units["temperature_unit"] == "K" else round(T - 273.15, 6)
     mat = dict(name="verif-c06m-%d" % case["seed"], **mp) if mp else "verif-c06m-%d" % case["seed"]
+    # a model may describe the desorption branch (the constructor default is adsorption)
+    brkw = {"branch": "des"} if case["seed"] % 3 == 1 else {}
     if case.get("fitted") and name in GM.WELL_POSED_FIT:
         P = GM.random_params(name, r, typed=False)
         ps = GM.sample_pressures(name, P, r, 15)
@@ -307,7 +309,7 @@ def _run_model(case, ctx):
         if not all(math.isfinite(x) and x > 0 for x in ls) or len(set(ls)) < 5:
             return
         try:
-            iso = pygaps.ModelIsotherm(pressure=ps, loading=ls, model=name, material=copy.deepcopy(mat), adsorbate=ads_name, temperature=Tst, **units, **copy.deepcopy(meta))
+            iso = pygaps.ModelIsotherm(pressure=ps, loading=ls, model=name, material=copy.deepcopy(mat), adsorbate=ads_name, temperature=Tst, **brkw, **units, **copy.deepcopy(meta))
         except Exception:
             ctx.count("skipped", "fit-failed")
             return
@@ -329,9 +331,14 @@ def _run_model(case, ctx):
         model.params.update(P)  # (as a fit leaves them: whatever the constructor made of its arguments)
         if case["seed"] % 5 == 0:
             model.rmse = 0.0
-        iso = pygaps.ModelIsotherm(model=model, material=copy.deepcopy(mat), adsorbate=ads_name, temperature=Tst, **units, **copy.deepcopy(meta))
+        iso = pygaps.ModelIsotherm(model=model, material=copy.deepcopy(mat), adsorbate=ads_name, temperature=Tst, **brkw, **units, **copy.deepcopy(meta))
         how = "hand-built"
-    spec = {"model": name, "params": dict(iso.model.params), "units": dict(iso.units), "meta": meta, "how": how}
+    spec = {"model": name, "params": dict(iso.model.params), "units": dict(iso.units), "meta": meta, "how": how, "branch": iso.branch}
+    if brkw:
+        if iso.branch != "des":
+            ctx.violation("model/constructor-ignores-branch", "a model built for the desorption branch reports another branch", branch=iso.branch)
+        ctx.count("models", "desorption-branch/" + how)
+    bq = {"branch": iso.branch}
 
     def model_checks(back):
         ctx.case(["model-dict", case["seed"]])
@@ -352,17 +359,17 @@ def _run_model(case, ctx):
         try:
             if name in GM.PRESSURE_EXPLICIT:
                 grid = numpy.linspace(iso.model.loading_range[0], iso.model.loading_range[1], 7)
-                va = [float(numpy.asarray(iso.pressure_at(x)).ravel()[0]) for x in grid]
+                va = [float(numpy.asarray(iso.pressure_at(x, **bq)).ravel()[0]) for x in grid]
                 fn = back.pressure_at
             else:
                 grid = numpy.linspace(iso.model.pressure_range[0], iso.model.pressure_range[1], 7)
-                va = [float(numpy.asarray(iso.loading_at(x)).ravel()[0]) for x in grid]
+                va = [float(numpy.asarray(iso.loading_at(x, **bq)).ravel()[0]) for x in grid]
                 fn = back.loading_at
         except Exception:
             ctx.count("skipped", "original-model-cannot-predict")
             return
         try:
-            vb = [float(numpy.asarray(fn(x)).ravel()[0]) for x in grid]
+            vb = [float(numpy.asarray(fn(x, **bq)).ravel()[0]) for x in grid]
         except Exception as exc:
             ctx.violation("model/prediction-raises-after-import/%s" % (name if name in ("DR", "DA") else "other"), "the re-imported model cannot be evaluated", exc=exc, model=name, how=how)
             return
